@@ -394,6 +394,88 @@ def rw_R12_break_value(text, which, site, log):
     return text
 
 
+def receiver_start(toks, i):
+    """toks[i] is the `.` before a method name; return index of the first token of the receiver expression
+    (a postfix chain of idents, `.`, `::`, `?`, and bracketed groups)."""
+    j = i - 1
+    while j >= 0:
+        t = toks[j]
+        if t.kind == 'punct' and t.text in ')]':
+            # find matching open
+            depth = 0
+            k = j
+            while k >= 0:
+                if toks[k].kind == 'punct' and toks[k].text in ')]}':
+                    depth += 1
+                elif toks[k].kind == 'punct' and toks[k].text in '([{':
+                    depth -= 1
+                    if depth == 0:
+                        break
+                k -= 1
+            j = k - 1
+            continue
+        if t.kind in ('ident', 'num') and t.text not in ('return', 'if', 'in', 'match', 'let', 'mut', 'else', 'while'):
+            j -= 1
+            continue
+        if t.kind == 'punct' and t.text in '.?:':
+            j -= 1
+            continue
+        break
+    return j + 1
+
+
+def rw_R5_any(text, site, log):
+    """RECV.any(|PAT| BODY) -> { let mut vany_N = false; let mut vait_N = RECV; loop { match vait_N.next() {
+       Some(PAT) => { if BODY { vany_N = true; break; } }, None => { break; } } } vany_N }
+    (the definition of core::iter::Iterator::any with the closure body inlined)."""
+    n = 0
+    while True:
+        toks = tokenize(text)
+        hit = None
+        for i, t in enumerate(toks):
+            if t.text == '.' and i + 3 < len(toks) and toks[i + 1].text == 'any' and toks[i + 2].text == '(' and toks[i + 3].text == '|':
+                hit = i
+                break
+        if hit is None:
+            break
+        n += 1
+        i = hit
+        rs = receiver_start(toks, i)
+        recv = text[toks[rs].start:toks[i].start]
+        close = match_close(toks, i + 2)
+        # closure: |PAT| BODY
+        j = i + 4
+        while toks[j].text != '|':
+            j += 1
+        pat = text[toks[i + 4].start:toks[j].start].strip()
+        body = text[toks[j + 1].start:toks[close].start].strip()
+        new = ('{ let mut vany_%d = false; let mut vait_%d = %s; loop { match vait_%d.next() { Some(%s) => { if %s { vany_%d = true; break; } }, None => { break; } } } vany_%d }'
+               % (n, n, recv, n, pat, body, n, n))
+        text = text[:toks[rs].start] + new + text[toks[close].end:]
+    log.add('R5(ITER.any(|x| P) -> explicit loop)', site, n)
+    return text
+
+
+def rw_R17(text, kind, site, log):
+    """E.try_into().unwrap() -> v_slice_to_<kind>(&E)"""
+    n = 0
+    while True:
+        toks = tokenize(text)
+        hit = None
+        for i, t in enumerate(toks):
+            if t.text == '.' and i + 7 < len(toks) and [x.text for x in toks[i + 1:i + 8]] == ['try_into', '(', ')', '.', 'unwrap', '(', ')']:
+                hit = i
+                break
+        if hit is None:
+            break
+        n += 1
+        rs = receiver_start(toks, hit)
+        recv = text[toks[rs].start:toks[hit].start]
+        text = text[:toks[rs].start] + 'v_slice_to_%s(&%s)' % (kind, recv.strip()) + text[toks[hit + 7].end:]
+    log.add('R17(E.try_into().unwrap() -> v_slice_to_%s(&E))' % kind, site, n)
+    return text
+
+
 def expand_macro_calls(text, macros: Dict[str, Tuple[List[str], str]], site, log):
     """R7: textually expand invocations of the listed macro_rules! (single arm, $x:expr params only)."""
     for name, (params, body) in macros.items():
@@ -849,6 +931,13 @@ class Unit:
             text = rw(text, site, self.log)
         if c:
             for r in c.rewrites:
+                if r == 'R5':
+                    text = rw_R5_any(text, site, self.log)
+                    continue
+                m17 = re.match(r'R17\((\w+)\)$', r)
+                if m17:
+                    text = rw_R17(text, m17.group(1), site, self.log)
+                    continue
                 m = re.match(r'(R4|R12)\(([\d,]+)\)$', r)
                 if not m:
                     raise WeaveError('unknown rewrite ' + r)
@@ -966,8 +1055,18 @@ class Unit:
                     else:
                         # named fields: make every field pub so that specs may mention it
                         text = re.sub(r'(?m)^(\s+)(?!pub\b)(\w+\s*:)', r'\1pub \2', text)
-                    # derive lists are dropped (R1): Verus needs no Debug/PartialEq here
+                    # R1: derive lists are reduced to what Verus accepts (sized newtypes keep Clone/Copy/PartialEq/Eq/
+                    # PartialOrd/Ord and gain Structural; unsized byte newtypes keep none)
                     text = re.sub(r'#\[derive\([^)]*\)\]\s*', '', text)
+                    md = re.search(r'#\[derive\(([^)]*)\)\]', it.attrs)
+                    unsized = re.search(r'\(\s*(pub\s+)?\[u8\]\s*\)', text) is not None
+                    if md and not unsized:
+                        ds = [d.strip() for d in md.group(1).split(',')]
+                        keep = [d for d in ds if d in ('Clone', 'Copy', 'PartialEq', 'Eq', 'PartialOrd', 'Ord')]
+                        if 'PartialEq' in keep and 'Eq' in keep:
+                            keep.append('Structural')
+                        if keep:
+                            text = '#[derive(%s)]\n' % ', '.join(keep) + text
                 self.emit(text, e[1], rustlex.line_of(src, it.start))
             elif kind in ('body', 'standin'):
                 rel, path = e[1], e[2]
